@@ -284,6 +284,7 @@ type wrapConn struct{ net.Conn }
 
 type scenario struct {
 	CtxKind      int           // 0 background 1 cancel-only 2 with deadline
+	OwnCtx       bool          // the cancel-only context is the application's own implementation of context.Context (own Done channel), not a standard library type
 	Debug        int           // 0 ws.Dialer.Dial, 1 wsutil.DebugDialer with both callbacks, 2 with OnResponse only
 	Cause        bool          // the context carries an application cause (WithCancelCause / WithDeadlineCause); ctx.Err() is unaffected by it
 	CtxDeadline  time.Duration // kind 2
@@ -304,8 +305,8 @@ type scenario struct {
 }
 
 func (s scenario) String() string {
-	return fmt.Sprintf("debug=%d ctx=%d(dl=%v cause=%v) timeout=%v connect=%v(ignoreCtx=%v) tls=%v(real=%v) statusBody=%v wrap=%v peer=%d respDelay=%v segs=%d gap=%v trailing=%v rbuf=%d segmax=%d",
-		s.Debug, s.CtxKind, s.CtxDeadline, s.Cause, s.Timeout, s.ConnectDelay, s.IgnoreCtx, s.TLS, s.RealTLS, s.StatusBody, s.Wrap, s.Peer, s.RespDelay, s.Segs, s.Gap, s.Trailing, s.RBuf, s.SegMax)
+	return fmt.Sprintf("debug=%d ctx=%d(dl=%v cause=%v own=%v) timeout=%v connect=%v(ignoreCtx=%v) tls=%v(real=%v) statusBody=%v wrap=%v peer=%d respDelay=%v segs=%d gap=%v trailing=%v rbuf=%d segmax=%d",
+		s.Debug, s.CtxKind, s.CtxDeadline, s.Cause, s.OwnCtx, s.Timeout, s.ConnectDelay, s.IgnoreCtx, s.TLS, s.RealTLS, s.StatusBody, s.Wrap, s.Peer, s.RespDelay, s.Segs, s.Gap, s.Trailing, s.RBuf, s.SegMax)
 }
 
 // cancelPlan says when the harness cancels the caller's context.
@@ -400,6 +401,10 @@ func dialOnce(sc scenario, plan cancelPlan, o *outcome) {
 		switch sc.CtxKind {
 		case 1:
 			ctx, cancel = context.WithCancel(base)
+			if sc.OwnCtx {
+				oc := &ownCtx{done: make(chan struct{})}
+				ctx, cancel = oc, oc.cancel
+			}
 			if sc.Cause {
 				var cc context.CancelCauseFunc
 				ctx, cc = context.WithCancelCause(base)
@@ -603,6 +608,32 @@ func dialOnce(sc scenario, plan cancelPlan, o *outcome) {
 // ---------------------------------------------------------------------------
 // The property
 
+// ownCtx is a context.Context that is not one of the standard library's
+// types: contexts derived from it watch its Done channel from a goroutine of
+// their own until they are cancelled.
+type ownCtx struct {
+	mu   sync.Mutex
+	done chan struct{}
+	err  error
+}
+
+func (c *ownCtx) Deadline() (time.Time, bool) { return time.Time{}, false }
+func (c *ownCtx) Done() <-chan struct{}       { return c.done }
+func (c *ownCtx) Value(any) any               { return nil }
+func (c *ownCtx) Err() error {
+	c.mu.Lock()
+	defer c.mu.Unlock()
+	return c.err
+}
+func (c *ownCtx) cancel() {
+	c.mu.Lock()
+	if c.err == nil {
+		c.err = context.Canceled
+		close(c.done)
+	}
+	c.mu.Unlock()
+}
+
 // errAppCause is the cause an application attaches to its context.
 var errAppCause = errors.New("application: shutting down")
 
@@ -611,6 +642,7 @@ func drawScenario(r *eng.Run) scenario {
 	sc := scenario{}
 	sc.CtxKind = r.T.Int(sim.LCfg, 3)
 	sc.Cause = sc.CtxKind != 0 && r.T.Chance(sim.LCfg, 1, 4)
+	sc.OwnCtx = sc.CtxKind == 1 && !sc.Cause && r.T.Chance(sim.LCfg, 1, 4)
 	if r.T.Chance(sim.LCfg, 1, 5) {
 		sc.Debug = 1 + r.T.Int(sim.LCfg, 2)
 	}
